@@ -443,10 +443,10 @@ fn main() {
     let mut extra = extra;
     if args.tier == "thorough" {
         let plan: Option<(&str, u64, u64)> = match property.as_str() {
-            "C07" => Some(("bytes", 16, 40)),
-            "C05" => Some(("threads", 16, 12)),
-            "C15" => Some(("merge", 16, 400)),
-            "C16" => Some(("ops", 16, 15)),
+            "C07" => Some(("bytes", 16, 120)),
+            "C05" => Some(("threads", 16, 40)),
+            "C15" => Some(("merge", 16, 2000)),
+            "C16" => Some(("ops", 16, 60)),
             _ => None,
         };
         if let Some((mode, procs, count)) = plan {
